@@ -245,8 +245,10 @@ def cbmc_cmd(job, gb, extra=()):
         cmd += STD_FLAGS
     if job.unwind is not None:
         cmd += ["--unwind", str(job.unwind)]
-    if job.unwindset:
-        cmd += ["--unwindset", ",".join("%s:%d" % kv for kv in job.unwindset.items())]
+    uws = dict(job.unwindset)
+    uws.setdefault("coap_realloc_type.0", 25)
+    uws.setdefault("coap_realloc_type.1", 1500)   # env.c byte-copy loop (concrete bound)
+    cmd += ["--unwindset", ",".join("%s:%d" % kv for kv in uws.items())]
     cmd += list(job.flags) + list(job.solver) + list(extra)
     return cmd
 
